@@ -166,10 +166,12 @@ func verifAcquire(_ *Pool, m *Message) {
 	st.released = false
 }
 
-// verifRelease is called at the start of ReleaseMessage.
-func verifRelease(_ *Pool, m *Message) {
+// verifRelease is called at the start of ReleaseMessage. It reports true when the release must not
+// be carried out: a second release of an object that was not re-acquired in between is reported and
+// quarantined, so that the pool (and with it the monitoring process) survives to tell about it.
+func verifRelease(_ *Pool, m *Message) bool {
 	if !verifOn.Load() || m == nil {
-		return
+		return false
 	}
 	verifStats.releases.Add(1)
 	key := uintptr(unsafe.Pointer(m))
@@ -192,7 +194,7 @@ func verifRelease(_ *Pool, m *Message) {
 	}
 	if st.released {
 		verifReport(fmt.Sprintf("double-release: message released twice without being re-acquired; second release at:\n%s  first release at:\n%s", verifStack(pcs), verifStack(st.relPCs)))
-		return
+		return true
 	}
 	st.released = true
 	st.relPCs = pcs
@@ -205,4 +207,5 @@ func verifRelease(_ *Pool, m *Message) {
 	verifFill(m.bufferMarshal)
 	st.unmarshalP = verifFirst(m.bufferUnmarshal)
 	st.valueP = verifFirst(m.origValueBuffer)
+	return false
 }
